@@ -5,108 +5,167 @@
 package immutable
 
 // ---- C01: the @immutable checker -------------------------------------------------------------------------------
-// The walk context is usable: pass and package present, a current function name is always set (possibly "").
-//@ pure func ctxOK(ctx *checkerContext) bool = ctx != nil && ctx.pass != nil && ctx.pass.Pkg != nil && ctx.currentFunction != nil
+//
+// The property is stated over the annotation relations of the package being analysed and of its direct imports
+// (immDeclared / ctorDeclared / mutDeclared, src/indexing/zz_contracts_verif.go), not over the lookup tables:
+// `packageAnnotations` is a ghost parameter of every function below the entry point.
 
-// The code being walked is inside a function listed as @constructor of (p, t), in t's own package.
-//@ macro func ctxInCtor(ctx *checkerContext, p string, t string) bool = ctx.pass.Pkg.Path() == p && contains(tarList(ctx.constructors, p, t), *ctx.currentFunction)
+// x.f must be reported: the defined type of x is @immutable, f is not @mutable, and the code is not inside a
+// function of the type's own package that is listed as its @constructor (fn = name of the enclosing function).
+//@ pure func fieldHit(pass *analysis.Pass, ann *annotations.PackageAnnotations, fn string, sel *ast.SelectorExpr) bool = isDef(pass.TypesInfo.TypeOf(sel.X)) && immDeclared(pass, ann, defPkg(pass.TypesInfo.TypeOf(sel.X)), defName(pass.TypesInfo.TypeOf(sel.X))) && !(pass.Pkg.Path() == defPkg(pass.TypesInfo.TypeOf(sel.X)) && ctorDeclared(pass, ann, defPkg(pass.TypesInfo.TypeOf(sel.X)), defName(pass.TypesInfo.TypeOf(sel.X)), fn)) && !mutDeclared(pass, ann, defPkg(pass.TypesInfo.TypeOf(sel.X)), defName(pass.TypesInfo.TypeOf(sel.X)), sel.Sel.Name)
 
-// x.f is a write target that must be reported: x's defined type is @immutable, f is not @mutable, not in a constructor.
-//@ pure func fieldHit(ctx *checkerContext, sel *ast.SelectorExpr) bool = isDef(ctx.pass.TypesInfo.TypeOf(sel.X)) && tmHas(ctx.immutableTypes, defPkg(ctx.pass.TypesInfo.TypeOf(sel.X)), defName(ctx.pass.TypesInfo.TypeOf(sel.X))) && !ctxInCtor(ctx, defPkg(ctx.pass.TypesInfo.TypeOf(sel.X)), defName(ctx.pass.TypesInfo.TypeOf(sel.X))) && !contains(tarList(ctx.mutableFields, defPkg(ctx.pass.TypesInfo.TypeOf(sel.X)), defName(ctx.pass.TypesInfo.TypeOf(sel.X))), sel.Sel.Name)
+// *r must be reported: r is the receiver (hasRecv, rname) of the enclosing method of the @immutable type (rpkg, rtype)
+//@ pure func recvHit(pass *analysis.Pass, ann *annotations.PackageAnnotations, fn string, hasRecv bool, rname string, rpkg string, rtype string, star *ast.StarExpr) bool = hasRecv && typeis(ast.Unparen(star.X), *ast.Ident) && cast(ast.Unparen(star.X), *ast.Ident).Name == rname && immDeclared(pass, ann, rpkg, rtype) && !(pass.Pkg.Path() == rpkg && ctorDeclared(pass, ann, rpkg, rtype, fn))
 
-// *r is a write to the receiver of the enclosing method of an @immutable type, not in a constructor.
-//@ pure func recvHit(ctx *checkerContext, star *ast.StarExpr) bool = ctx.currentReceiver != nil && typeis(ast.Unparen(star.X), *ast.Ident) && cast(ast.Unparen(star.X), *ast.Ident).Name == ctx.currentReceiver.name && tmHas(ctx.immutableTypes, ctx.currentReceiver.pkgPath, ctx.currentReceiver.typeName) && !ctxInCtor(ctx, ctx.currentReceiver.pkgPath, ctx.currentReceiver.typeName)
+// What must be reported for one unparenthesised left-hand side e of a plain assignment / of a compound assignment /
+// for the unparenthesised operand e of an inc-dec statement at position sp: the code and the position.
+//@ pure func lhsViol(pass *analysis.Pass, ann *annotations.PackageAnnotations, fn string, hasRecv bool, rname string, rpkg string, rtype string, e ast.Expr, code string, pos token.Pos) bool = (typeis(e, *ast.SelectorExpr) && fieldHit(pass, ann, fn, cast(e, *ast.SelectorExpr)) && code == "IMM01" && pos == e.Pos()) || (typeis(e, *ast.IndexExpr) && typeis(ast.Unparen(cast(e, *ast.IndexExpr).X), *ast.SelectorExpr) && fieldHit(pass, ann, fn, cast(ast.Unparen(cast(e, *ast.IndexExpr).X), *ast.SelectorExpr)) && code == "IMM04" && pos == e.Pos()) || (typeis(e, *ast.StarExpr) && recvHit(pass, ann, fn, hasRecv, rname, rpkg, rtype, cast(e, *ast.StarExpr)) && code == "IMM01" && pos == e.Pos())
+//@ pure func compoundViol(pass *analysis.Pass, ann *annotations.PackageAnnotations, fn string, e ast.Expr, code string, pos token.Pos) bool = typeis(e, *ast.SelectorExpr) && fieldHit(pass, ann, fn, cast(e, *ast.SelectorExpr)) && code == "IMM02" && pos == e.Pos()
+//@ pure func incdecViol(pass *analysis.Pass, ann *annotations.PackageAnnotations, fn string, hasRecv bool, rname string, rpkg string, rtype string, e ast.Expr, sp token.Pos, code string, pos token.Pos) bool = (typeis(e, *ast.SelectorExpr) && fieldHit(pass, ann, fn, cast(e, *ast.SelectorExpr)) && code == "IMM03" && pos == sp) || (typeis(e, *ast.StarExpr) && recvHit(pass, ann, fn, hasRecv, rname, rpkg, rtype, cast(e, *ast.StarExpr)) && code == "IMM03" && pos == e.Pos())
+
+// The walk context: usable, and its lookup tables are exactly the annotation relations.
+//@ macro func ctxOK(ctx *checkerContext, ann *annotations.PackageAnnotations) bool = ctx != nil && ctx.pass != nil && ctx.pass.Pkg != nil && ctx.currentFunction != nil && ann != nil && (forall p string, t string :: tmHas(ctx.immutableTypes, p, t) <==> immDeclared(ctx.pass, ann, p, t)) && (forall p string, t string, x string :: contains(tarList(ctx.constructors, p, t), x) <==> ctorDeclared(ctx.pass, ann, p, t, x)) && (forall p string, t string, x string :: contains(tarList(ctx.mutableFields, p, t), x) <==> mutDeclared(ctx.pass, ann, p, t, x))
+// the walk state as values
+//@ macro func cFn(ctx *checkerContext) string = *ctx.currentFunction
+//@ macro func cHas(ctx *checkerContext) bool = ctx.currentReceiver != nil
+//@ macro func cName(ctx *checkerContext) string = ctx.currentReceiver != nil ? ctx.currentReceiver.name : ""
+//@ macro func cPkg(ctx *checkerContext) string = ctx.currentReceiver != nil ? ctx.currentReceiver.pkgPath : ""
+//@ macro func cType(ctx *checkerContext) string = ctx.currentReceiver != nil ? ctx.currentReceiver.typeName : ""
 
 //@ func checkerContext.inConstructor
 //@   props C01 C10
-//@   requires ctxOK(ctx)
-//@   ensures result == ctxInCtor(ctx, pkgPath, typeName)
+//@   ghostparam packageAnnotations *annotations.PackageAnnotations
+//@   requires ctxOK(ctx, packageAnnotations)
+//@   ensures result == (ctx.pass.Pkg.Path() == pkgPath && ctorDeclared(ctx.pass, packageAnnotations, pkgPath, typeName, cFn(ctx)))
 //@   assigns nothing
 
 //@ func checkFieldAssignment
 //@   props C01 C13 C10
-//@   requires ctxOK(ctx)
+//@   ghostparam packageAnnotations *annotations.PackageAnnotations
+//@   requires ctxOK(ctx, packageAnnotations)
 //@   fresh
-//@   ensures (result != nil) == fieldHit(ctx, selector)
+//@   ensures (result != nil) == fieldHit(ctx.pass, packageAnnotations, cFn(ctx), selector)
 //@   ensures result != nil ==> result.Code == "IMM01" && result.Pos == selector.Pos() && result.Node == stmt && result.TypeName == defName(ctx.pass.TypesInfo.TypeOf(selector.X))
 //@   assigns nothing
 
 //@ func checkIndexAssignment
 //@   props C01 C13 C10
-//@   requires ctxOK(ctx)
+//@   ghostparam packageAnnotations *annotations.PackageAnnotations
+//@   requires ctxOK(ctx, packageAnnotations)
 //@   fresh
-//@   ensures (result != nil) == (typeis(ast.Unparen(index.X), *ast.SelectorExpr) && fieldHit(ctx, cast(ast.Unparen(index.X), *ast.SelectorExpr)))
+//@   ensures (result != nil) == (typeis(ast.Unparen(index.X), *ast.SelectorExpr) && fieldHit(ctx.pass, packageAnnotations, cFn(ctx), cast(ast.Unparen(index.X), *ast.SelectorExpr)))
 //@   ensures result != nil ==> result.Code == "IMM04" && result.Pos == index.Pos() && result.Node == stmt
 //@   assigns nothing
 
 //@ func checkFieldIncDec
 //@   props C01 C13 C10
-//@   requires ctxOK(ctx)
+//@   ghostparam packageAnnotations *annotations.PackageAnnotations
+//@   requires ctxOK(ctx, packageAnnotations)
 //@   fresh
-//@   ensures (result != nil) == fieldHit(ctx, selector)
+//@   ensures (result != nil) == fieldHit(ctx.pass, packageAnnotations, cFn(ctx), selector)
 //@   ensures result != nil ==> result.Code == "IMM03" && result.Pos == node.Pos() && result.Node == node
 //@   assigns nothing
 
 //@ func checkReceiverIncDec
 //@   props C01 C10
-//@   requires ctxOK(ctx)
+//@   ghostparam packageAnnotations *annotations.PackageAnnotations
+//@   requires ctxOK(ctx, packageAnnotations)
 //@   fresh
-//@   ensures (result != nil) == recvHit(ctx, star)
+//@   ensures (result != nil) == recvHit(ctx.pass, packageAnnotations, cFn(ctx), cHas(ctx), cName(ctx), cPkg(ctx), cType(ctx), star)
 //@   ensures result != nil ==> result.Code == "IMM03" && result.Pos == star.Pos() && result.Node == node
 //@   assigns nothing
 
 //@ func checkCompoundLHS
 //@   props C01 C13 C10
-//@   requires ctxOK(ctx)
+//@   ghostparam packageAnnotations *annotations.PackageAnnotations
+//@   requires ctxOK(ctx, packageAnnotations)
 //@   fresh
-//@   ensures (result != nil) == (typeis(ast.Unparen(expr), *ast.SelectorExpr) && fieldHit(ctx, cast(ast.Unparen(expr), *ast.SelectorExpr)))
-//@   ensures result != nil ==> result.Code == "IMM02" && result.Pos == ast.Unparen(expr).Pos() && result.Node == stmt
+//@   ensures result != nil ==> compoundViol(ctx.pass, packageAnnotations, cFn(ctx), ast.Unparen(expr), result.Code, result.Pos) && result.Node == stmt
+//@   ensures result == nil ==> (forall code string, pos token.Pos :: !compoundViol(ctx.pass, packageAnnotations, cFn(ctx), ast.Unparen(expr), code, pos))
 //@   assigns nothing
 
 //@ func checkReceiverReassignment
 //@   props C01 C10
-//@   requires ctxOK(ctx)
+//@   ghostparam packageAnnotations *annotations.PackageAnnotations
+//@   requires ctxOK(ctx, packageAnnotations)
 //@   fresh
-//@   ensures (result != nil) == recvHit(ctx, star)
+//@   ensures (result != nil) == recvHit(ctx.pass, packageAnnotations, cFn(ctx), cHas(ctx), cName(ctx), cPkg(ctx), cType(ctx), star)
 //@   ensures result != nil ==> result.Code == "IMM01" && result.Pos == star.Pos() && result.Node == stmt
 //@   assigns nothing
 
-// What must be reported for one (unparenthesised) left-hand side e of a plain assignment: code and position.
-//@ pure func lhsViol(ctx *checkerContext, e ast.Expr, code string, pos token.Pos) bool = (typeis(e, *ast.SelectorExpr) && fieldHit(ctx, cast(e, *ast.SelectorExpr)) && code == "IMM01" && pos == e.Pos()) || (typeis(e, *ast.IndexExpr) && typeis(ast.Unparen(cast(e, *ast.IndexExpr).X), *ast.SelectorExpr) && fieldHit(ctx, cast(ast.Unparen(cast(e, *ast.IndexExpr).X), *ast.SelectorExpr)) && code == "IMM04" && pos == e.Pos()) || (typeis(e, *ast.StarExpr) && recvHit(ctx, cast(e, *ast.StarExpr)) && code == "IMM01" && pos == e.Pos())
-// ... of a compound assignment
-//@ pure func compoundViol(ctx *checkerContext, e ast.Expr, code string, pos token.Pos) bool = typeis(e, *ast.SelectorExpr) && fieldHit(ctx, cast(e, *ast.SelectorExpr)) && code == "IMM02" && pos == e.Pos()
-// ... of x++ / x-- with (unparenthesised) operand e, statement position sp
-//@ pure func incdecViol(ctx *checkerContext, e ast.Expr, sp token.Pos, code string, pos token.Pos) bool = (typeis(e, *ast.SelectorExpr) && fieldHit(ctx, cast(e, *ast.SelectorExpr)) && code == "IMM03" && pos == sp) || (typeis(e, *ast.StarExpr) && recvHit(ctx, cast(e, *ast.StarExpr)) && code == "IMM03" && pos == e.Pos())
-
 //@ func checkLHS
 //@   props C01 C10
-//@   requires ctxOK(ctx)
+//@   ghostparam packageAnnotations *annotations.PackageAnnotations
+//@   requires ctxOK(ctx, packageAnnotations)
 //@   fresh
-//@   ensures result != nil ==> lhsViol(ctx, ast.Unparen(expr), result.Code, result.Pos) && result.Node == stmt
-//@   ensures result == nil ==> (forall code string, pos token.Pos :: !lhsViol(ctx, ast.Unparen(expr), code, pos))
+//@   ensures result != nil ==> lhsViol(ctx.pass, packageAnnotations, cFn(ctx), cHas(ctx), cName(ctx), cPkg(ctx), cType(ctx), ast.Unparen(expr), result.Code, result.Pos) && result.Node == stmt
+//@   ensures result == nil ==> (forall code string, pos token.Pos :: !lhsViol(ctx.pass, packageAnnotations, cFn(ctx), cHas(ctx), cName(ctx), cPkg(ctx), cType(ctx), ast.Unparen(expr), code, pos))
 //@   assigns nothing
 
 //@ func checkAssignment
 //@   props C01 C10
-//@   requires ctxOK(ctx)
-//@   ensures forall j int :: 0 <= j && j < len(result) ==> result[j].Node == node && (exists i int :: 0 <= i && i < len(node.Lhs) && lhsViol(ctx, ast.Unparen(node.Lhs[i]), result[j].Code, result[j].Pos))
-//@   ensures forall i int, code string, pos token.Pos :: 0 <= i && i < len(node.Lhs) && lhsViol(ctx, ast.Unparen(node.Lhs[i]), code, pos) ==> (exists j int :: 0 <= j && j < len(result) && result[j].Code == code && result[j].Pos == pos)
+//@   ghostparam packageAnnotations *annotations.PackageAnnotations
+//@   requires ctxOK(ctx, packageAnnotations)
+//@   ensures forall j int :: 0 <= j && j < len(result) ==> result[j].Node == node && (exists i int :: 0 <= i && i < len(node.Lhs) && lhsViol(ctx.pass, packageAnnotations, cFn(ctx), cHas(ctx), cName(ctx), cPkg(ctx), cType(ctx), ast.Unparen(node.Lhs[i]), result[j].Code, result[j].Pos))
+//@   ensures forall i int, code string, pos token.Pos :: 0 <= i && i < len(node.Lhs) && lhsViol(ctx.pass, packageAnnotations, cFn(ctx), cHas(ctx), cName(ctx), cPkg(ctx), cType(ctx), ast.Unparen(node.Lhs[i]), code, pos) ==> (exists j int :: 0 <= j && j < len(result) && result[j].Code == code && result[j].Pos == pos)
 //@   assigns nothing
-//@   loop 1 invariant forall j int :: 0 <= j && j < len(violations) ==> violations[j].Node == node && (exists i int :: 0 <= i && i < $i && lhsViol(ctx, ast.Unparen(node.Lhs[i]), violations[j].Code, violations[j].Pos))
-//@   loop 1 invariant forall i int, code string, pos token.Pos :: 0 <= i && i < $i && lhsViol(ctx, ast.Unparen(node.Lhs[i]), code, pos) ==> (exists j int :: 0 <= j && j < len(violations) && violations[j].Code == code && violations[j].Pos == pos)
+//@   loop 1 invariant forall j int :: 0 <= j && j < len(violations) ==> violations[j].Node == node && (exists i int :: 0 <= i && i < $i && lhsViol(ctx.pass, packageAnnotations, cFn(ctx), cHas(ctx), cName(ctx), cPkg(ctx), cType(ctx), ast.Unparen(node.Lhs[i]), violations[j].Code, violations[j].Pos))
+//@   loop 1 invariant forall i int, code string, pos token.Pos :: 0 <= i && i < $i && lhsViol(ctx.pass, packageAnnotations, cFn(ctx), cHas(ctx), cName(ctx), cPkg(ctx), cType(ctx), ast.Unparen(node.Lhs[i]), code, pos) ==> (exists j int :: 0 <= j && j < len(violations) && violations[j].Code == code && violations[j].Pos == pos)
 
 //@ func checkCompoundAssignment
 //@   props C01 C10
-//@   requires ctxOK(ctx)
-//@   ensures forall j int :: 0 <= j && j < len(result) ==> result[j].Node == node && (exists i int :: 0 <= i && i < len(node.Lhs) && compoundViol(ctx, ast.Unparen(node.Lhs[i]), result[j].Code, result[j].Pos))
-//@   ensures forall i int, code string, pos token.Pos :: 0 <= i && i < len(node.Lhs) && compoundViol(ctx, ast.Unparen(node.Lhs[i]), code, pos) ==> (exists j int :: 0 <= j && j < len(result) && result[j].Code == code && result[j].Pos == pos)
+//@   ghostparam packageAnnotations *annotations.PackageAnnotations
+//@   requires ctxOK(ctx, packageAnnotations)
+//@   ensures forall j int :: 0 <= j && j < len(result) ==> result[j].Node == node && (exists i int :: 0 <= i && i < len(node.Lhs) && compoundViol(ctx.pass, packageAnnotations, cFn(ctx), ast.Unparen(node.Lhs[i]), result[j].Code, result[j].Pos))
+//@   ensures forall i int, code string, pos token.Pos :: 0 <= i && i < len(node.Lhs) && compoundViol(ctx.pass, packageAnnotations, cFn(ctx), ast.Unparen(node.Lhs[i]), code, pos) ==> (exists j int :: 0 <= j && j < len(result) && result[j].Code == code && result[j].Pos == pos)
 //@   assigns nothing
-//@   loop 1 invariant forall j int :: 0 <= j && j < len(violations) ==> violations[j].Node == node && (exists i int :: 0 <= i && i < $i && compoundViol(ctx, ast.Unparen(node.Lhs[i]), violations[j].Code, violations[j].Pos))
-//@   loop 1 invariant forall i int, code string, pos token.Pos :: 0 <= i && i < $i && compoundViol(ctx, ast.Unparen(node.Lhs[i]), code, pos) ==> (exists j int :: 0 <= j && j < len(violations) && violations[j].Code == code && violations[j].Pos == pos)
+//@   loop 1 invariant forall j int :: 0 <= j && j < len(violations) ==> violations[j].Node == node && (exists i int :: 0 <= i && i < $i && compoundViol(ctx.pass, packageAnnotations, cFn(ctx), ast.Unparen(node.Lhs[i]), violations[j].Code, violations[j].Pos))
+//@   loop 1 invariant forall i int, code string, pos token.Pos :: 0 <= i && i < $i && compoundViol(ctx.pass, packageAnnotations, cFn(ctx), ast.Unparen(node.Lhs[i]), code, pos) ==> (exists j int :: 0 <= j && j < len(violations) && violations[j].Code == code && violations[j].Pos == pos)
 
 //@ func checkIncDec
 //@   props C01 C10
-//@   requires ctxOK(ctx)
-//@   ensures forall j int :: 0 <= j && j < len(result) ==> result[j].Node == node && incdecViol(ctx, ast.Unparen(node.X), node.Pos(), result[j].Code, result[j].Pos)
-//@   ensures forall code string, pos token.Pos :: incdecViol(ctx, ast.Unparen(node.X), node.Pos(), code, pos) ==> (exists j int :: 0 <= j && j < len(result) && result[j].Code == code && result[j].Pos == pos)
+//@   ghostparam packageAnnotations *annotations.PackageAnnotations
+//@   requires ctxOK(ctx, packageAnnotations)
+//@   ensures forall j int :: 0 <= j && j < len(result) ==> result[j].Node == node && incdecViol(ctx.pass, packageAnnotations, cFn(ctx), cHas(ctx), cName(ctx), cPkg(ctx), cType(ctx), ast.Unparen(node.X), node.Pos(), result[j].Code, result[j].Pos)
+//@   ensures forall code string, pos token.Pos :: incdecViol(ctx.pass, packageAnnotations, cFn(ctx), cHas(ctx), cName(ctx), cPkg(ctx), cType(ctx), ast.Unparen(node.X), node.Pos(), code, pos) ==> (exists j int :: 0 <= j && j < len(result) && result[j].Code == code && result[j].Pos == pos)
 //@   assigns nothing
+
+// ---- the walk ----------------------------------------------------------------------------------------------------
+// The state the walk must be in while it is inside top-level declaration d: name of the function, receiver of the method.
+//@ macro func declFn(d ast.Decl) string = typeis(d, *ast.FuncDecl) ? cast(d, *ast.FuncDecl).Name.Name : ""
+//@ macro func fdHasRecv(pass *analysis.Pass, fd *ast.FuncDecl) bool = fd.Recv != nil && len(fd.Recv.List) > 0 && len(fd.Recv.List[0].Names) > 0 && isDef(pass.TypesInfo.TypeOf(fd.Recv.List[0].Type))
+//@ macro func dHas(pass *analysis.Pass, d ast.Decl) bool = typeis(d, *ast.FuncDecl) && fdHasRecv(pass, cast(d, *ast.FuncDecl))
+//@ macro func dName(pass *analysis.Pass, d ast.Decl) string = dHas(pass, d) ? cast(d, *ast.FuncDecl).Recv.List[0].Names[0].Name : ""
+//@ macro func dPkg(pass *analysis.Pass, d ast.Decl) string = !dHas(pass, d) ? "" : defPkg(pass.TypesInfo.TypeOf(cast(d, *ast.FuncDecl).Recv.List[0].Type))
+//@ macro func dType(pass *analysis.Pass, d ast.Decl) string = !dHas(pass, d) ? "" : defName(pass.TypesInfo.TypeOf(cast(d, *ast.FuncDecl).Recv.List[0].Type))
+
+//@ func extractReceiverInfo
+//@   props C01 C10
+//@   fresh
+//@   ensures (result != nil) == fdHasRecv(pass, funcDecl)
+//@   ensures result != nil ==> result.name == funcDecl.Recv.List[0].Names[0].Name && result.typeName == defName(pass.TypesInfo.TypeOf(funcDecl.Recv.List[0].Type)) && result.pkgPath == defPkg(pass.TypesInfo.TypeOf(funcDecl.Recv.List[0].Type))
+//@   assigns nothing
+
+// What must be reported at node n inside top-level declaration d (the property statement, node by node):
+//@ pure func nodeViol(pass *analysis.Pass, ann *annotations.PackageAnnotations, d ast.Decl, n ast.Node, code string, pos token.Pos) bool = (typeis(n, *ast.AssignStmt) && cast(n, *ast.AssignStmt).Tok == token.ASSIGN && (exists i int :: 0 <= i && i < len(cast(n, *ast.AssignStmt).Lhs) && lhsViol(pass, ann, declFn(d), dHas(pass, d), dName(pass, d), dPkg(pass, d), dType(pass, d), ast.Unparen(cast(n, *ast.AssignStmt).Lhs[i]), code, pos))) || (typeis(n, *ast.AssignStmt) && cast(n, *ast.AssignStmt).Tok != token.ASSIGN && (exists i int :: 0 <= i && i < len(cast(n, *ast.AssignStmt).Lhs) && compoundViol(pass, ann, declFn(d), ast.Unparen(cast(n, *ast.AssignStmt).Lhs[i]), code, pos))) || (typeis(n, *ast.IncDecStmt) && incdecViol(pass, ann, declFn(d), dHas(pass, d), dName(pass, d), dPkg(pass, d), dType(pass, d), ast.Unparen(cast(n, *ast.IncDecStmt).X), n.Pos(), code, pos))
+
+// a violation is justified: it sits at a node of a declaration of an analysed file where the property demands it
+//@ macro func justified(cfg *config.Config, pass *analysis.Pass, ann *annotations.PackageAnnotations, n ast.Node, code string, pos token.Pos) bool = exists f *ast.File, di int :: contains(pass.Files, f) && !skipFile(cfg, pass, f) && 0 <= di && di < len(f.Decls) && inspIn(n, f.Decls[di]) && nodeViol(pass, ann, f.Decls[di], n, code, pos)
+// everything the property demands inside declaration di of file f has been reported
+//@ macro func declDone(pass *analysis.Pass, ann *annotations.PackageAnnotations, vs []ImmutableViolation, f *ast.File, di int) bool = forall n ast.Node, code string, pos token.Pos :: inspIn(n, f.Decls[di]) && nodeViol(pass, ann, f.Decls[di], n, code, pos) ==> (exists j int :: 0 <= j && j < len(vs) && vs[j].Node == n && vs[j].Code == code && vs[j].Pos == pos)
+
+// C01: the reported violations are exactly those the property demands, in every declaration of every analysed file.
+//@ func CheckImmutable
+//@   props C01 C12 C14 C10
+//@   requires cfg != nil && pass.Pkg != nil && packageAnnotations != nil
+//@   ensures forall j int :: 0 <= j && j < len(result) ==> justified(cfg, pass, packageAnnotations, result[j].Node, result[j].Code, result[j].Pos)
+//@   ensures forall f *ast.File, di int :: contains(pass.Files, f) && !skipFile(cfg, pass, f) && 0 <= di && di < len(f.Decls) ==> declDone(pass, packageAnnotations, result, f, di)
+//@   loop 1 invariant forall j int :: 0 <= j && j < len(violations) ==> justified(cfg, pass, packageAnnotations, violations[j].Node, violations[j].Code, violations[j].Pos)
+//@   loop 1 invariant forall k int, di int :: 0 <= k && k < $i && 0 <= di && di < len($seq[k].Decls) ==> declDone(pass, packageAnnotations, violations, $seq[k], di)
+//@   loop 2 invariant forall j int :: 0 <= j && j < len(violations) ==> justified(cfg, pass, packageAnnotations, violations[j].Node, violations[j].Code, violations[j].Pos)
+//@   loop 2 invariant forall k int, di int :: 0 <= k && k < $i1 && 0 <= di && di < len($seq1[k].Decls) ==> declDone(pass, packageAnnotations, violations, $seq1[k], di)
+//@   loop 2 invariant forall di int :: 0 <= di && di < $i ==> declDone(pass, packageAnnotations, violations, file, di)
+//@   at call ast.Inspect#1 invariant forall j int :: 0 <= j && j < len(violations) ==> justified(cfg, pass, packageAnnotations, violations[j].Node, violations[j].Code, violations[j].Pos)
+//@   at call ast.Inspect#1 invariant forall k int, di int :: 0 <= k && k < $i1 && 0 <= di && di < len($seq1[k].Decls) ==> declDone(pass, packageAnnotations, violations, $seq1[k], di)
+//@   at call ast.Inspect#1 invariant forall di int :: 0 <= di && di < $i2 ==> declDone(pass, packageAnnotations, violations, file, di)
+//@   at call ast.Inspect#1 invariant forall k int, code string, pos token.Pos :: 0 <= k && k < $i && nodeViol(pass, packageAnnotations, decl, $seq[k], code, pos) ==> (exists j int :: 0 <= j && j < len(violations) && violations[j].Node == $seq[k] && violations[j].Code == code && violations[j].Pos == pos)
